@@ -147,12 +147,30 @@ Proof.
       rewrite Hp, Es. reflexivity.
 Qed.
 
+Lemma drop_inv2 : forall st L LP K, Inv2 st L LP -> key_ok K ->
+  Inv2 (delete_series K st) (live_step L (IDrop K)) (lp_step LP (IDrop K)).
+Proof.
+  intros st L LP K [HI HLP HS] HK. constructor.
+  - apply delete_series_inv; auto.
+  - intros x Hx. cbn [lp_step] in Hx. apply filter_In in Hx. destruct Hx as [Hx Hn].
+    cbn [live_step]. apply filter_In. split; auto.
+  - intros K' HK'. cbn [delete_series ix_segs lp_step]. rewrite seg_get_del.
+    destruct (beqb (normalized K') (normalized K)) eqn:E.
+    + apply beqb_true in E. apply norm_inj in E; auto. subst K'.
+      unfold adds_of. rewrite filter_none; [apply R_nil|]. intros x Hx. apply filter_In in Hx.
+      destruct Hx as [_ Hn]. unfold of_series, series_of. apply negb_true_iff in Hn. exact Hn.
+    + unfold adds_of. rewrite filter_filter_same; [apply HS; exact HK'|].
+      intros x _ Hp. unfold of_series in Hp. apply labels_eqb_true in Hp. unfold series_of in Hp.
+      rewrite Hp. apply negb_true_iff. destruct (labels_eqb K' K) eqn:E2; auto.
+      apply labels_eqb_true in E2. rewrite E2 in E. rewrite beqb_refl in E. discriminate.
+Qed.
+
 Lemma run_inv2 : forall ops st L LP, Inv2 st L LP -> Forall op_ok ops ->
   Inv2 (fold_left ix_step ops st) (fold_left live_step ops L) (fold_left lp_step ops LP).
 Proof.
   induction ops as [|o ops IH]; intros st L LP HI Hok; cbn; auto.
   inversion Hok as [|x y Ho Hok']; subst. apply IH; auto.
-  destruct o as [K s c|Q]; cbn [ix_step]; [apply put_inv2|apply delete_inv2]; auto.
+  destruct o as [K s c|Q|K]; cbn [ix_step]; [apply put_inv2|apply delete_inv2|apply drop_inv2]; auto.
 Qed.
 
 (* ---------- regrouping the live uploads by series ---------- *)
